@@ -36,6 +36,13 @@ def run(ctx):
             ctx.cov["transitions"] += r["generated"]
             ctx.run_replay("replay-parse", ["-in", path], "replay-parse", sigkeys=("kind",))
             os.remove(path)
+        # token level: every string of <= 5 (thorough 6) macro tokens rendered as text
+        path = os.path.join(ctx.work, "tokens.ndjson")
+        r = ctx.gen_to_file("MC_QL", ctx.cfg_variant("MC_QL.cfg", dict(Mode='"tokens"', MaxLen=6 if thorough else 5, Emit="TRUE")), path, workers=8, label="gen-token-strings")
+        if r["emitted"] < 1000:
+            raise Broken("MC_QL emitted too few token strings")
+        ctx.run_replay("replay-parse", ["-in", path], "replay-parse-tokens", sigkeys=("kind",))
+        os.remove(path)
         ctx.cov["exhaustive"] = True
         tr = os.path.join(ctx.work, "parse.ndjson")
         ctx.record("record-parse", ["-seed", seed, "-n", "3000" if thorough else "600", "-depth", "150" if thorough else "40"], tr)
